@@ -10,6 +10,7 @@
 #include <sched.h>
 #include <sstream>
 #include <sys/mman.h>
+#include <sys/time.h>
 #include <sys/syscall.h>
 #include <sys/wait.h>
 #include <time.h>
@@ -84,6 +85,8 @@ struct Slot {
   int depth;
   int result;
   int busy;  // 1 while an execution is in flight (its stack is meaningful after a crash)
+  int hang_retries;  // the execution in the slot hit its time limit once and is being re-run with larger limits
+  int retry;         // resume by re-running the slot's stack as a prefix (after a first time-out)
   int has_item;
   char stage[64];
   char sig[192];
@@ -129,6 +132,7 @@ struct Shared {
   double viol_deadline;   // real time after which the run stops once a violation was found
   std::atomic<uint64_t> execs, transitions, states, outcomes, pruned, items, crashes, known_execs, table_used, table_full, maxdepth;
   std::atomic<uint64_t> queue_overflow;
+  std::atomic<uint64_t> timeouts_retried;
   int cap[NKINDS];
   int total_cap;
   std::atomic_flag vlock;
@@ -224,6 +228,22 @@ void record_violation(int result, const std::string &sig, const std::string &msg
   g_slot->result = result;
   snprintf(g_slot->sig, sizeof g_slot->sig, "%s", sig.c_str());
   snprintf(g_slot->msg, sizeof g_slot->msg, "%s", msg.c_str());
+}
+
+// Limits of one execution: CPU time (robust against an overloaded machine) and, ten times larger, wall
+// clock time (for an execution that is blocked without consuming CPU).
+void arm_limits(int mult) {
+  struct itimerval it;
+  memset(&it, 0, sizeof it);
+  it.it_value.tv_sec = g_opt.exec_alarm_s * mult;
+  setitimer(ITIMER_PROF, &it, nullptr);
+  alarm((unsigned)(g_opt.exec_alarm_s * mult * 10));
+}
+void disarm_limits() {
+  struct itimerval it;
+  memset(&it, 0, sizeof it);
+  setitimer(ITIMER_PROF, &it, nullptr);
+  alarm(0);
 }
 
 int find_kf(const std::string &sig) {
@@ -505,7 +525,7 @@ std::string describe_status(int st) {
 void handle_crash(Slot *s, int status) {
   g_sh->crashes++;
   if (WIFEXITED(status) && WEXITSTATUS(status) == 2) return;  // hard error already recorded
-  std::string kind = (WIFSIGNALED(status) && WTERMSIG(status) == SIGALRM) ? "hang" : "crash";
+  std::string kind = (WIFSIGNALED(status) && (WTERMSIG(status) == SIGALRM || WTERMSIG(status) == SIGPROF)) ? "hang" : "crash";
   std::string sig = g_opt.property + ":" + kind + ":" + s->stage;
   std::string msg = kind + " in stage '" + s->stage + "': " + describe_status(status);
   int k = find_kf(sig);
@@ -619,7 +639,15 @@ void worker_loop(int w, bool resume) {
     sched_setaffinity(0, sizeof set, &set);
   }
   bool have = false;
-  if (resume && s->has_item) have = backtrack(s);  // continue after the crashed execution
+  int limit_mult = 1;
+  if (resume && s->has_item && s->retry) {
+    // re-run the execution that timed out: its recorded stack is the prefix; four times the limits
+    s->retry = 0;
+    have = true;
+    limit_mult = 4;
+  } else if (resume && s->has_item) {
+    have = backtrack(s);  // continue after the crashed execution
+  }
   for (;;) {
     if (!have) {
       s->has_item = 0;
@@ -637,7 +665,7 @@ void worker_loop(int w, bool resume) {
       pid_t c = fork();
       if (c < 0) hard_error("fork failed");
       if (c == 0) {
-        alarm(g_opt.exec_alarm_s);
+        arm_limits(1);
         run_exec(false);
         fflush(stdout);
         fflush(stderr);
@@ -645,6 +673,22 @@ void worker_loop(int w, bool resume) {
       }
       int st = 0;
       while (waitpid(c, &st, 0) < 0 && errno == EINTR) {}
+      if (WIFSIGNALED(st) && (WTERMSIG(st) == SIGALRM || WTERMSIG(st) == SIGPROF)) {
+        // time limit hit: before calling it a hang, run the same execution once more, alone, with four times
+        // the limits (an overloaded machine must not produce verdicts)
+        g_sh->timeouts_retried++;
+        fflush(stdout);
+        fflush(stderr);
+        pid_t c2 = fork();
+        if (c2 == 0) {
+          arm_limits(4);
+          run_exec(false);
+          fflush(stdout);
+          fflush(stderr);
+          _exit(0);
+        }
+        while (waitpid(c2, &st, 0) < 0 && errno == EINTR) {}
+      }
       if (!(WIFEXITED(st) && WEXITSTATUS(st) == 0)) {
         if (WIFEXITED(st) && WEXITSTATUS(st) == 2) { g_sh->stop = 3; _exit(2); }
         handle_crash(s, st);
@@ -652,9 +696,11 @@ void worker_loop(int w, bool resume) {
         add_violation_from_slot(s);
       }
     } else {
-      alarm(g_opt.exec_alarm_s);
+      arm_limits(limit_mult);
       run_exec(false);
-      alarm(0);
+      disarm_limits();
+      limit_mult = 1;
+      s->hang_retries = 0;
       if (s->result == RS_VIOLATION) add_violation_from_slot(s);
     }
     s->busy = 0;
@@ -708,7 +754,7 @@ int replay_in_child(const Pos *st, int depth, bool tracing, std::string *sig, ui
   if (c == 0) {
     g_slot = s;
     g_opt.cache = false;  // a replay must run to its end: it is never cut at a covered state
-    alarm(g_opt.exec_alarm_s * 4);
+    arm_limits(4);
     run_exec(tracing);
     fflush(stdout);
     fflush(stderr);
@@ -717,7 +763,7 @@ int replay_in_child(const Pos *st, int depth, bool tracing, std::string *sig, ui
   int stt = 0;
   while (waitpid(c, &stt, 0) < 0 && errno == EINTR) {}
   if (!(WIFEXITED(stt) && WEXITSTATUS(stt) == 0)) {
-    std::string kind = (WIFSIGNALED(stt) && WTERMSIG(stt) == SIGALRM) ? "hang" : "crash";
+    std::string kind = (WIFSIGNALED(stt) && (WTERMSIG(stt) == SIGALRM || WTERMSIG(stt) == SIGPROF)) ? "hang" : "crash";
     *sig = g_opt.property + ":" + kind + ":" + s->stage;
     *msg = kind + " in stage '" + s->stage + "': " + describe_status(stt);
     *tha = *thb = 0;
@@ -779,6 +825,7 @@ int harness_main(int argc, char **argv, const char *harness, const char *propert
   double deadline_override = -1;
   int jobs_override = -1;
   bool no_cache = false, no_iter = false;
+  int alarm_override = -1;
   for (int i = 1; i < argc; ++i) {
     std::string a = argv[i];
     auto val = [&](const char *k) -> const char * {
@@ -794,6 +841,7 @@ int harness_main(int argc, char **argv, const char *harness, const char *propert
     else if ((v = val("--deadline"))) deadline_override = atof(v);
     else if ((v = val("--known"))) g_kf_path = v;
     else if ((v = val("--name"))) g_opt.harness = v;
+    else if ((v = val("--alarm"))) alarm_override = atoi(v);
     else if ((v = val("--replay-dir"))) g_replay_dir = v;
     else if (a == "--no-cache") no_cache = true;
     else if (a == "--no-iter") no_iter = true;
@@ -810,6 +858,7 @@ int harness_main(int argc, char **argv, const char *harness, const char *propert
   setup(g_opt);
   if (deadline_override > 0) g_opt.deadline_s = deadline_override;
   if (jobs_override > 0) g_opt.jobs = jobs_override;
+  if (alarm_override > 0) g_opt.exec_alarm_s = alarm_override;
   if (g_opt.jobs > MAXWORKERS - 2) g_opt.jobs = MAXWORKERS - 2;
   if (no_cache) g_opt.cache = false;
   if (no_iter) g_opt.iterative = false;
@@ -932,6 +981,8 @@ int harness_main(int argc, char **argv, const char *harness, const char *propert
     for (int w = 0; w < g_opt.jobs; ++w) {
       g_sh->slots[w].has_item = 0;
       g_sh->slots[w].busy = 0;
+      g_sh->slots[w].hang_retries = 0;
+      g_sh->slots[w].retry = 0;
       pid_t c = fork();
       if (c == 0) worker_loop(w, false);
       pids[c] = w;
@@ -948,6 +999,18 @@ int harness_main(int argc, char **argv, const char *harness, const char *propert
       if (WIFEXITED(st) && WEXITSTATUS(st) == 2) { g_sh->stop = 3; continue; }
       // in-process worker crashed while running an execution: record and respawn to resume
       Slot *s = &g_sh->slots[w];
+      if (s->busy && WIFSIGNALED(st) && (WTERMSIG(st) == SIGALRM || WTERMSIG(st) == SIGPROF) && s->hang_retries == 0) {
+        // first time-out of this execution: re-run it alone with larger limits before calling it a hang
+        g_sh->timeouts_retried++;
+        s->hang_retries = 1;
+        s->retry = 1;
+        s->busy = 0;
+        pid_t c2 = fork();
+        if (c2 == 0) worker_loop(w, true);
+        pids[c2] = w;
+        continue;
+      }
+      s->hang_retries = 0;
       if (!s->busy) { snprintf(g_sh->harderr, sizeof g_sh->harderr, "worker %d died outside an execution: %s", w, describe_status(st).c_str()); g_sh->stop = 3; continue; }
       handle_crash(s, st);
       g_sh->execs++;
@@ -967,18 +1030,29 @@ int harness_main(int argc, char **argv, const char *harness, const char *propert
   int nviol = g_sh->nviol;
   int hard = (g_sh->stop == 3) ? 1 : 0;
   std::vector<std::string> replay_paths;
+  int spurious_timeouts = 0;
   for (int i = 0; i < nviol; ++i) {
     Viol &v = g_sh->viol[i];
     g_sh->total_cap = v.round_total;
     bool same = true;
     std::string why;
+    bool is_hang = strstr(v.sig, ":hang:") != nullptr;
+    bool dropped = false;
     for (int rep = 0; rep < 2 && same; ++rep) {
       std::string sig, msg;
       uint64_t a, b;
       int r = replay_in_child(v.stack, v.depth, false, &sig, &a, &b, &msg);
+      if (is_hang && r == RS_OK) {
+        // the time limit was hit because the machine was overloaded: re-run alone with a four times larger
+        // limit the execution completes and passes - not a violation, not an error
+        fprintf(stderr, "vf: note: time limit hit in stage of %s did not reproduce on replay (load artefact), dropped\n", v.sig);
+        dropped = true;
+        break;
+      }
       if (r != RS_VIOLATION || sig != v.sig) { same = false; why = sfmt("replay %d gave result %d sig '%s' (%s)", rep, r, sig.c_str(), msg.c_str()); }
       else if (v.th_a && (a != v.th_a || b != v.th_b)) { same = false; why = sfmt("replay %d: trace hash differs", rep); }
     }
+    if (dropped) { v.used = 0; spurious_timeouts++; replay_paths.push_back(""); continue; }
     v.confirmed = same;
     if (!same) {
       hard = 1;
@@ -1028,7 +1102,7 @@ int harness_main(int argc, char **argv, const char *harness, const char *propert
         << "\", \"seed\": " << g_opt.seed << ",\n \"wall_s\": " << sfmt("%.2f", wall) << ",\n \"executions\": " << g_sh->execs.load()
         << ", \"transitions\": " << g_sh->transitions.load() << ", \"states\": " << g_sh->states.load() << ", \"outcomes\": " << g_sh->outcomes.load()
         << ", \"pruned\": " << g_sh->pruned.load() << ", \"queue_items\": " << g_sh->items.load() << ", \"crashes\": " << g_sh->crashes.load()
-        << ", \"max_depth\": " << g_sh->maxdepth.load() << ", \"known_finding_executions\": " << g_sh->known_execs.load() << ",\n \"budgets\": {";
+        << ", \"timeouts_retried\": " << g_sh->timeouts_retried.load() << ", \"timeouts_dropped_after_replay\": " << spurious_timeouts << ", \"max_depth\": " << g_sh->maxdepth.load() << ", \"known_finding_executions\": " << g_sh->known_execs.load() << ",\n \"budgets\": {";
     for (int k = 1; k < NKINDS; ++k) out << (k > 1 ? ", " : "") << "\"" << kKindName[k] << "\": " << g_opt.cap[k];
     out << ", \"total\": " << g_opt.total_cap << "},\n \"rounds\": [";
     for (size_t i = 0; i < rounds.size(); ++i)
